@@ -77,3 +77,95 @@ Check (C20_payload_bound_insufficient :
       Forall (fun b => fits sblock sb_dlen sb_elen mb mm b = true) l /\
       sum (map sb_dlen l) <= mb /\
       mm < message_len sblock sb_elen l).
+Check (C20_presences_partition :
+  forall (mm : N) (l : list spres),
+    concat (send_response_presences mm l) = filter (fits spres (fun _ => 0) sp_elen 0 mm) l).
+Check (C20_presences_bounds :
+  forall (mm : N) (l : list spres),
+    Forall (fun b => b <> [] /\ sum (map (fun _ => 0) b) <= 0 /\ message_len spres sp_elen b <= mm)
+           (send_response_presences mm l)).
+Check (C20_default_presences_all_sent :
+  forall l, Forall (fun p => (length (c_digest (sp_cid p)) <= 64)%nat) l ->
+    concat (send_response_presences Consts.BITSWAP_MAX_MESSAGE_SIZE l) = l).
+Check (C20_unsplit_presences_insufficient :
+  forall mm, 42 <= mm ->
+    exists l : list spres,
+      Forall (fun p => fits spres (fun _ => 0) sp_elen 0 mm p = true) l /\
+      mm < message_len spres sp_elen l).
+Check (C20_response_lossless :
+  forall mb mm ps bs,
+    flat_map omsg_presences (action_msgs mb mm (AResponse ps bs)) =
+      filter (fits spres (fun _ => 0) sp_elen 0 mm) ps /\
+    flat_map omsg_blocks (action_msgs mb mm (AResponse ps bs)) =
+      filter (fits sblock sb_dlen sb_elen mb mm) bs).
+Check (C20_response_within_codec_limit :
+  forall mb mm ps bs, Forall (fun m => omsg_len m <= mm) (action_msgs mb mm (AResponse ps bs))).
+Check (C20_response_written_healthy :
+  forall mb mm ps bs,
+    write_msgs mm None (action_msgs mb mm (AResponse ps bs)) =
+    (action_msgs mb mm (AResponse ps bs), 0, None, true)).
+Check (C20_cid_roundtrip :
+  forall c rest, cid_wf c -> cid_read_bytes (cid_to_bytes c ++ rest) = Some c).
+Check (C20_cid_parsed_wf :
+  forall l c, cid_read_bytes l = Some c -> cid_wf c).
+Check (C20_request_roundtrip :
+  forall cids, Forall (fun cw => cid_wf (fst cw)) cids ->
+    inbound_wants (request_entries cids) = cids).
+Check (C20_request_entries_independent :
+  forall l1 l2, inbound_wants (l1 ++ l2) = inbound_wants l1 ++ inbound_wants l2).
+Check (C20_request_invalid_entry_dropped :
+  forall l1 e l2, entry_want e = None ->
+    inbound_wants (l1 ++ e :: l2) = inbound_wants (l1 ++ l2)).
+Check (C20_request_reported_wellformed :
+  forall es c w, In (c, w) (inbound_wants es) ->
+    exists e, In e es /\ cid_read_bytes (we_block e) = Some c /\ we_wanttype e = want_code w /\ cid_wf c).
+Check (C20_request_ignores_cancel :
+  forall b t p1 c1 s1 p2 c2 s2,
+    entry_want (mkWE b p1 c1 t s1) = entry_want (mkWE b p2 c2 t s2)).
+Check (C20_presence_roundtrip :
+  forall c p, cid_wf c -> presence_of (cid_to_bytes c, presence_code p) = Some (c, p)).
+Check (C20_message_blocks_certified :
+  forall (D : Type) (digest : N -> D -> option (list N)) m c d,
+    In (c, d) (flat_map (event_blocks D) (msg_events D digest m)) ->
+    exists pb, In (pb, d) (m_payload m) /\ block_to_response D digest pb d = Some (c, d)).
+Check (C20_no_partial_delivery :
+  forall (D : Type) (digest : N -> D -> option (list N)) ms rest,
+    inbound_events D digest (map IFrame ms ++ IBad :: rest) = flat_map (msg_events D digest) ms).
+Check (C20_sender_failure_no_partial_delivery :
+  forall (D : Type) (digest : N -> D -> option (list N)) (rx : omsg -> message D)
+         mm c ms done part c' ok rest,
+    write_msgs mm c ms = (done, part, c', ok) ->
+    inbound_events D digest (map (fun m => IFrame (rx m)) done ++ IBad :: rest) =
+      flat_map (fun m => msg_events D digest (rx m)) done /\
+    exists tail, ms = done ++ tail).
+Check (C20_write_prefix :
+  forall mm ms c done part c' ok,
+    write_msgs mm c ms = (done, part, c', ok) ->
+    exists rest,
+      ms = done ++ rest /\
+      (ok = true -> rest = [] /\ part = 0) /\
+      (ok = false -> rest <> []) /\
+      Forall (fun m => omsg_len m <= mm) done).
+Check (C20_session_blocks_certified :
+  forall (D : Type) (digest : N -> D -> option (list N)) ops c d,
+    In (c, d) (flat_map (event_blocks D) (session_events D digest ops)) ->
+    digest (c_code c) d = Some (c_digest c) /\ cid_valid c /\ (length (c_digest c) <= 64)%nat).
+Check (C20_only_requested_refuted :
+  exists ops : list (sess_op N),
+    requested N ops = [] /\
+    In (demo_cid, 7) (flat_map (event_blocks N) (session_events N demo_digest ops))).
+Check (C20_no_duplicate_delivery_refuted :
+  exists ops : list (sess_op N),
+    requested N ops = [demo_cid] /\
+    flat_map (event_blocks N) (session_events N demo_digest ops) = [(demo_cid, 7); (demo_cid, 7)]).
+Check (C20_only_requested_with_want_filter :
+  forall (D : Type) (digest : N -> D -> option (list N)) ops want c d,
+    In (c, d) (client_run D digest want ops) ->
+    exists o1 m o2,
+      ops = o1 ++ SIncoming m :: o2 /\
+      (In c want \/ In c (requested D o1)) /\
+      In (c, d) (flat_map (event_blocks D) (msg_events D digest m)) /\
+      digest (c_code c) d = Some (c_digest c)).
+Check (C20_no_duplicate_delivery_with_want_filter :
+  forall (D : Type) (digest : N -> D -> option (list N)) ops want c,
+    (cnt D c (client_run D digest want ops) <= memn c want + req_count D c ops)%nat).
